@@ -77,11 +77,20 @@ func ruleC18(p *Prog, r *Res) {
 			w.classes[n] = strings.Join(clauseMembers[ci], ",")
 			r.OkTrivial(rule, key, p.Pos(s), "handled in class {"+w.classes[n]+"}")
 		}
+		// a default clause that is itself the error return is the fall-out written inside the switch
+		defaultFails := false
 		if hasDefault {
+			for _, cl := range s.Body.List {
+				if cc, ok := cl.(*ast.CaseClause); ok && cc.List == nil {
+					defaultFails = failsLoudly(f.Pkg.TypesInfo, cc.Body)
+				}
+			}
+		}
+		if hasDefault && !defaultFails {
 			r.Bad(rule, fkey+" default clause", p.Pos(s), "a default clause hides unhandled instructions; the walks must fall out into the error return")
 		}
 		// (3) the statement following the switch returns a non-nil error
-		ok3 := false
+		ok3 := defaultFails
 		var after ast.Stmt
 		ast.Inspect(lit.Body(), func(x ast.Node) bool {
 			if bl, ok := x.(*ast.BlockStmt); ok {
@@ -93,7 +102,7 @@ func ruleC18(p *Prog, r *Res) {
 			}
 			return true
 		})
-		if after != nil {
+		if after != nil && !ok3 {
 			ok3 = failsLoudly(f.Pkg.TypesInfo, []ast.Stmt{after})
 		}
 		r.Check(ok3, rule, fkey+" fall-out returns error", p.Pos(s), "statement after the switch returns a non-nil error", "an instruction not matched by any case must end in an error return, not a zero value")
